@@ -46,6 +46,23 @@ fn components() -> Vec<Comp> {
     v
 }
 
+/// widths 10, 16, 100, 255, 256, 1000 for every directive and flag; 65535 (the largest accepted) for %d and %y
+fn wide_components() -> Vec<Comp> {
+    let mut v = vec![];
+    for d in DIRECTIVES {
+        for left in [false, true] {
+            for width in [10usize, 16, 100, 255, 256, 1000, 65535] {
+                if width == 65535 && !(d == 'd' || d == 'y') {
+                    continue;
+                }
+                let text = format!("%{}{}{}", if left { "-" } else { "" }, width, d);
+                v.push(Comp::Dir { d, left, width: Some(width), text });
+            }
+        }
+    }
+    v
+}
+
 fn roots(sbx_w: &str) -> Vec<String> {
     vec!["r".into(), "./r".into(), "r/".into(), "r//".into(), "r/.".into(), ".".into(), "../w/r".into(), format!("{sbx_w}/r"), "lr".into()]
 }
@@ -54,7 +71,7 @@ fn spec(t: Tier) -> Spec {
     Spec {
         id: "C16",
         level: "exploration",
-        rule: format!("components: literal x, literal é, escapes \\a \\b \\f \\n \\r \\t \\v \\\\ \\0 \\101, %%, and each directive of p f h H P d s n i U G m y Y l with flag (none, -) x width (none, 1, 9): 103 components. Every format of <= {all} components on every configuration (9 starting-point spellings: r ./r r/ r// r/. . ../w/r absolute link-to-dir x -P -H -L) and of <= {deep} components on all 27 configurations in thorough (quick: on one, r/ under -H), rendered by the real find over a sandbox with every entry kind (regular, setuid, hard links, empty/non-empty/sticky/setgid directories, fifo, socket, links to each, dangling, outside, at depth 0..2, owners 0/1/54321/2^31) in -sorted order, several formats per run as consecutive -printf actions; the whole output must equal, byte for byte, the independent renderer's (values from lstat()/stat()/readlink() of the selected record, padding left/right to the width, never truncated, literals verbatim, nothing appended). A mismatching batch is bisected to the format and to the component. -fprintf FILE FORMAT is run for every single-component format. non-trivial = format containing a directive", all = t.pick(2, 2), deep = 3),
+        rule: format!("components: literal x, literal é, escapes \\a \\b \\f \\n \\r \\t \\v \\\\ \\0 \\101, %%, and each directive of p f h H P d s n i U G m y Y l with flag (none, -) x width (none, 1, 9): 103 components. Every format of <= {all} components on every configuration (9 starting-point spellings: r ./r r/ r// r/. . ../w/r absolute link-to-dir x -P -H -L) and of <= {deep} components on all 27 configurations in thorough (quick: on one, r/ under -H), rendered by the real find over a sandbox with every entry kind (regular, setuid, hard links, empty/non-empty/sticky/setgid directories, fifo, socket, links to each, dangling, outside, at depth 0..2, owners 0/1/54321/2^31) in -sorted order, several formats per run as consecutive -printf actions; the whole output must equal, byte for byte, the independent renderer's (values from lstat()/stat()/readlink() of the selected record, padding left/right to the width, never truncated, literals verbatim, nothing appended). A mismatching batch is bisected to the format and to the component. -fprintf FILE FORMAT is run for every single-component format; wide-field slice: every directive and flag with widths 10, 16, 100, 255, 256, 1000 (and 65535 for %d, %y) followed by a literal, on every configuration. non-trivial = format containing a directive", all = t.pick(2, 2), deep = 3),
         bound: json!({"components": 103, "max_components_all_configs": 2, "max_components_deep_configs": 3, "configs": 27}),
         assumptions: vec![
             "not judged (entries filtered out of the run by -path): %Y and %l on a link the follow mode resolves, %Y on a dangling link; %h when the part before the last component is empty ('/x') or itself ends in a slash ('r//x')".into(),
@@ -442,6 +459,21 @@ fn run(ctx: &mut Ctx) {
             job += 1;
             if ctx.mine(job) {
                 fprintf_slice(ctx, &cfg, &comps);
+            }
+            // wide fields: every directive with widths far beyond the values' lengths
+            job += 1;
+            if ctx.mine(job) {
+                let wide = wide_components();
+                let fmts: Vec<Vec<&Comp>> = wide.iter().map(|c| vec![c, &comps[0]]).collect();
+                for batch in fmts.chunks(16) {
+                    let (bad, judged) = run_batch(&cfg, batch);
+                    ctx.rep.evaluations += judged;
+                    ctx.rep.nontrivial += batch.len() as u64;
+                    ctx.rep.count("wide_field_formats_x_configs", batch.len() as u64);
+                    if bad.is_some() {
+                        report(ctx, &cfg, batch);
+                    }
+                }
             }
         }
     }
